@@ -149,6 +149,22 @@ def mon_C11(walk, d):
                     out.append(("bytes-after-error", "service emitted bytes after an entry point failed", i))
                 if k in ("svc", "data", "wc") and f.get("res") == "ok":
                     out.append(("ok-after-error", f"{k} succeeded on a halted engine", i))
+    # a well-formed packet from the reference broker is never undecodable, whatever happened on earlier connections
+    # (judged in adversarial walks too: on a connection that has not been tainted yet)
+    client_mps = int(kv_get(walk.connect_kv, "mps", "0") or 0)
+    if client_mps == 0 or client_mps >= 200:
+        for i, (o, note) in enumerate(zip(walk.out, walk.notes)):
+            if note.get("kind") != "data" or note.get("tainted") or str(note.get("label", "")).startswith("hostile"):
+                continue
+            f, _ = resp_fields(o)
+            if f.get("res") != "err:DecodingFailure":
+                continue
+            c = conn_at(d, i)
+            if c is None or (c.error_step is not None and c.error_step < i) or (getattr(c, "taint_step", None) is not None and c.taint_step <= i):
+                continue
+            # split deliveries: the first part of a packet cannot fail either
+            out.append(("conformant-packet-undecodable", f"a well-formed packet from the server ({note.get('label')}) was answered with a decoding failure "
+                                                         f"on connection {c.index}, which had seen nothing malformed", i))
     if not walk.adv:
         for i, (o, note) in enumerate(zip(walk.out, walk.notes)):
             if note.get("kind") == "data":
@@ -552,6 +568,8 @@ def mon_C05(walk, d):
 
 
 def mon_C06(walk, d):
+    # a retransmission after a resumed reconnect reuses the identifier of the original (judged by the delivery monitor)
+    reuse = [x for x in mon_C04(walk, d) if x[0] == "retransmission-new-id"]
     out = []
     inuse = {}        # pid -> tag
     completed_at = {idx: lst[0][0] for idx, lst in d["completions"].items()}
@@ -592,7 +610,7 @@ def mon_C06(walk, d):
                 pid, op = pair.split(":")
                 if op not in ops:
                     out.append(("packet-id-leak", f"id {pid} reserved for operation {op} which is no longer tracked", i))
-    return out
+    return out + reuse
 
 
 def session_lost_between(d, tag, c):
@@ -618,6 +636,35 @@ def mon_C09(walk, d):
                 inflight[tag] = p["first_step"]
                 if len(inflight) > rm:
                     out.append(("receive-maximum-exceeded", f"{len(inflight)} unacknowledged QoS>0 publishes in flight, server Receive Maximum is {rm}", p["first_step"]))
+    # one-at-a-time drain after a reconnect: while an operation interrupted by the latest disconnection is unresolved, at most
+    # one operation that requires an acknowledgement is outstanding
+    if walk.cfg.get("drain") == "one":
+        def needs_ack(p):
+            return (p["kind"] == "publish" and p["desc"].get("qos", 0) > 0) or p["kind"] in ("subscribe", "unsubscribe")
+        interrupted = set()      # operations that were in flight at some disconnection (resolved ones drop out below)
+        for c in d["conns"]:
+            if c.connack is not None and c.connack.get("rc") == 0 and c.connack_step is not None and interrupted \
+                    and getattr(c, "taint_step", None) is None:
+                outstanding = []
+                for p in c.packets:
+                    tag = tag_of(p)
+                    if tag is None or not needs_ack(p) or p["first_step"] <= c.connack_step:
+                        continue
+                    st = p["first_step"]
+                    # (a completion reported by the very service call that sends this packet precedes it: validation
+                    # failures and acknowledgement handling come before the next dequeue)
+                    live = [tg for tg in interrupted if completed_at.get(tg, 10 ** 9) > st]
+                    outstanding = [tg for tg in outstanding if completed_at.get(tg, 10 ** 9) > st and tg != tag]
+                    if live and outstanding:
+                        out.append(("slow-start-exceeded", f"operation {tag} sent while operation {outstanding[0]} awaits its acknowledgement and the operations "
+                                                           f"{sorted(live)[:4]} interrupted by the last disconnection are unresolved (one-at-a-time drain configured)", st))
+                        break
+                    outstanding.append(tag)
+            close = c.close_step if c.close_step is not None else len(walk.script)
+            for p in c.packets:
+                tag = tag_of(p)
+                if tag is not None and needs_ack(p) and p["last_step"] <= close and completed_at.get(tag, 10 ** 9) > close:
+                    interrupted.add(tag)
     return out
 
 
@@ -625,6 +672,7 @@ def mon_C10(walk, d):
     out = []
     for c in d["conns"]:
         last_new = -1
+        last_retrans = -1
         seen_new = False
         first_seen = set()
         for p in c.packets:
@@ -638,6 +686,10 @@ def mon_C10(walk, d):
             if retrans:
                 if seen_new:
                     out.append(("retransmission-after-new", f"retransmission of operation {tag} sent after a newer first transmission on connection {c.index}", p["first_step"]))
+                if tag < last_retrans and getattr(c, "taint_step", None) is None:
+                    out.append(("retransmission-out-of-order", f"retransmission of operation {tag} sent after that of operation {last_retrans} on connection {c.index}: "
+                                                               f"in-flight publishes are not retransmitted in their submission order", p["first_step"]))
+                last_retrans = max(last_retrans, tag)
                 continue
             seen_new = True
             if tag < last_new:
@@ -667,6 +719,14 @@ def mon_C15(walk, d):
         step, t, outcome = lst[0]
         if outcome == "err.OfflineQueuePolicyFailed" and passes(op):
             out.append(("policy-failed-retained-kind", f"operation {idx} ({op['kind']} qos {op['qos']}) failed by offline policy {policy}, which retains it", step))
+        if outcome == "err.OfflineQueuePolicyFailed" and op["kind"] == "pub" and op["qos"] > 0 and walk.notes[step].get("kind") == "close":
+            # the mandated exception: a QoS 1/2 publish already in flight is retained across the disconnection and meets the
+            # policy only when the server reports no session
+            sent = [p for c in d["conns"] for p in c.packets if p["kind"] == "publish" and tag_of(p) == idx and p["last_step"] < step
+                    and getattr(c, "taint_step", None) is None]
+            if sent:
+                out.append(("in-flight-publish-failed-at-disconnect", f"QoS {op['qos']} publish {idx}, completely written on an earlier connection and unacknowledged, "
+                                                                      f"was failed by the offline policy at a disconnection (before any server reported the session lost)", step))
         if outcome == "err.ConnectionClosed":
             out.append(("user-op-connection-closed", f"user operation {idx} failed with ConnectionClosed", step))
     # at submission: while the engine is not in its Connected state an operation the policy rejects fails at once
